@@ -21,6 +21,8 @@ OBLIGATIONS = [
     "SkVerif.C03.update_predict_single_index",
     "SkVerif.C03.shift_equivariance_step",
     "SkVerif.C03.shift_equivariance",
+    "SkVerif.C03.refit_forgets_history",
+    "SkVerif.C03.refit_forgets_history_required",
 ]
 TRUSTED = ["hand-written model SkVerif/Model/Forecaster.lean + Series.lean of the forecaster base classes",
            "concrete cores (naive last/mean, harness probe forecaster) in Model/Cores.lean; every other forecaster is 'opaque': only its index/cutoff behaviour is compared"]
@@ -70,6 +72,7 @@ def oracle(c, out):
         # ---- cutoff clauses
         if k == "fit":
             was_fitted = r[0] == "ok"
+            in_order, max_label = True, None          # a (re)fit starts a new series
         if k == "fit" and r[0] == "ok":
             if cut != _last(op[1]):
                 fails.append((site + ":cutoff-after-fit", "cutoff %r after fit on series ending at %r" % (cut, _last(op[1]))))
@@ -77,7 +80,9 @@ def oracle(c, out):
             if cut != _last(op[1]):
                 fails.append((site + ":cutoff-after-update", "cutoff %r after update with batch ending at %r" % (cut, _last(op[1]))))
         # ---- prediction clauses
-        if k in ("pred", "ups") and r[0] == "S" and in_order:
+        # (after a REJECTED (re)fit the object is half-replaced -- new data, perhaps new horizon, old parameters; the
+        #  statement speaks of fitted forecasters, so the clauses wait for the next successful fit; correspondence goes on)
+        if k in ("pred", "ups") and r[0] == "S" and in_order and was_fitted:
             fh = stored_fh
             if fh is not None and cut is not None:
                 steps = sorted(fh[1])
@@ -94,6 +99,8 @@ def oracle(c, out):
                             if v is None or (isinstance(v, float) and not math.isfinite(v)):
                                 fails.append((site + ":predict-not-finite", "non-finite forecast at %r for finite data" % l))
                                 break
+        if r[0] == "E" and r[1] == "E:argmod":
+            fails.append((site + ":caller-argument-modified", "%s changed a series / horizon object that belongs to the caller" % k))
         # a valid out-of-sample request on a fitted forecaster must be answered
         if k in ("pred", "ups") and r[0] == "E" and in_order and c["mode"] == "o" and was_fitted and stored_fh is not None \
                 and stored_fh[0] == "r" and all(s_ > 0 for s_ in stored_fh[1]) and len(set(stored_fh[1])) == len(stored_fh[1]) \
@@ -124,11 +131,14 @@ def oracle(c, out):
 
 
 def _gap_free(c):
-    labels = set()
+    """every fit starts a new series: the labels handed over since each fit form a gap-free range"""
+    segs = []
     for op in c["ops"]:
-        if op[0] in ("fit", "upd", "up", "ups"):
-            labels.update(l for l, _ in op[1])
-    return bool(labels) and len(labels) == max(labels) - min(labels) + 1
+        if op[0] == "fit":
+            segs.append(set())
+        if op[0] in ("fit", "upd", "up", "ups") and segs:
+            segs[-1].update(l for l, _ in op[1])
+    return bool(segs) and all(sg and len(sg) == max(sg) - min(sg) + 1 for sg in segs)
 
 
 def _opaque_values(c):
@@ -234,6 +244,22 @@ def _history(rng, core, mode, long=False):
                 if fh is not None:
                     stored = fh if kind == "oos" else None
             ops.append(["pred", fh])
+        elif r < 0.46 and _i > 0:
+            # the same object fitted again, on another series (anywhere on the time axis), with or without a horizon:
+            # afterwards it must behave like an object fitted on that series only
+            n1 = rng.randrange(10, 17) if opq else rng.randrange(1, 10)
+            y1 = M.stretch(rng, rng.choice([cutoff + 1, start, cutoff - 4, 40, -30]), n1, nan_p, opq, gap_p)
+            fh1 = None
+            if mode == "r" or rng.random() < (0.8 if opq else 0.5):
+                # (a horizon-dependent forecaster rejects a refit with another horizon, leaving a half-replaced state:
+                #  composites are only re-fitted with the horizon they have)
+                fh1 = fit_fh if (mode == "r" and (opq or rng.random() < 0.5)) else M.rand_fh(rng, "oos", None, maxh)
+            if fh1 is not None:
+                fit_fh = fh1 if mode == "r" else fit_fh
+                stored = fh1
+            ops.append(["fit", y1, fh1])
+            cutoff = y1[-1][0]
+            after_up = False
         elif r < 0.75 or (opq and (r < 0.88 or mode == "r" or fit_fh is None or fit_fh[0] != "r")):
             ov = rng.random()
             if ov < 0.7 or opq:
@@ -261,7 +287,8 @@ def _history(rng, core, mode, long=False):
                         rng.randrange(1, 4), rng.randrange(1, 3), None, rng.random() < 0.5]
             # default splitter only while the stored horizon is still ahead of the cutoff (an absolute one falls behind)
             # (the cutoff can be anywhere up to the last label handed over so far: update_predict merges what it fed)
-            hi = max([cutoff] + [l for o in ops if o[0] in ("fit", "upd", "ups", "up") for l, _ in o[1]])
+            lastfit = max(i_ for i_, o in enumerate(ops) if o[0] == "fit")
+            hi = max([cutoff] + [l for o in ops[lastfit:] if o[0] in ("fit", "upd", "ups", "up") for l, _ in o[1]])
             stored_oos = stored is not None and all(v > (0 if stored[0] == "r" else hi) for v in stored[1])
             cv = explicit if (not stored_oos or rng.random() < 0.5) else None
             if opq:
